@@ -96,3 +96,5 @@ Proof.
   - replace (a * 128 * 128) with (a * 2^14) by (change (2^14) with 16384; lia).
     apply land_shiftl_low. change (2^14) with 16384. lia.
 Qed.
+Lemma land_7 x : N.land x 7 = x mod 8. Proof. exact (land_ones_k x 3). Qed.
+
